@@ -209,7 +209,9 @@ impl Flounder {
         let reserve = 5_000; // Try to always keep 5 seconds
         let available = time_left.saturating_sub(reserve);
         let base_time = available / 25;
-        let allocated = base_time + increment;
+        // Never plan to spend more than half of what is left on the clock,
+        // otherwise a large increment on a short clock loses on time
+        let allocated = (base_time + increment).min(time_left / 2);
 
         Some(Duration::from_millis(allocated))
     }
